@@ -82,16 +82,53 @@ func TestVerifC34(t *testing.T) {
 			}
 			tree := w.genTree(12)
 			okb := true
+			dupMode := tp.Choose(4) == 0 // the same blobs in two packs: a crashed backup, the same data again, repair index
+			if dupMode {
+				f := fault{Kind: "crash", At: 4 + tp.Choose(16)}
+				w.backupFaulty(tree, f)
+				w.recoverLocks("after crashed backup")
+			}
 			w.free(func() {
 				for i := 0; i < nBackups && okb; i++ {
 					okb = w.backupOK(tree, BackupOptions{}, fmt.Sprintf("backup %d", i))
 					tree = w.mutateTree(tree)
 				}
+				if okb && dupMode {
+					if err := w.cmdRepairIndex(w.newProc("repair-index"), false); err != nil {
+						okb = false
+						r.Fail("history", "repair-index-failed", "repair index failed: %v", err)
+					}
+				}
 			})
-			if !okb {
+			w.postRun()
+			if !okb || r.Failed() {
 				return
 			}
 			before := model.View(w.key, w.store.Clone(), true)
+			// pairs of packs that share a blob (targets for damage in both)
+			var sharing [][2]string
+			if dupMode {
+				seenPair := map[[2]string]bool{}
+				for _, es := range before.Indexed {
+					for i := range es {
+						for j := i + 1; j < len(es); j++ {
+							a, b := es[i].Pack, es[j].Pack
+							if a == b || before.Packs[a] == nil || before.Packs[b] == nil {
+								continue
+							}
+							if a > b {
+								a, b = b, a
+							}
+							if !seenPair[[2]string{a, b}] {
+								seenPair[[2]string{a, b}] = true
+								sharing = append(sharing, [2]string{a, b})
+							}
+						}
+					}
+				}
+				sort.Slice(sharing, func(i, j int) bool { return sharing[i][0]+sharing[i][1] < sharing[j][0]+sharing[j][1] })
+				r.Count("pack_pairs_sharing_a_blob", len(sharing))
+			}
 			packs := w.store.Names(backend.PackFile)
 			if len(packs) == 0 {
 				return
@@ -107,8 +144,16 @@ func TestVerifC34(t *testing.T) {
 			nDamage := tp.Range(1, 2)
 			damaged := map[string]bool{}
 			var desc []string
+			var pair [2]string
+			if len(sharing) > 0 && tp.Choose(4) != 0 {
+				pair = sharing[tp.Choose(len(sharing))]
+				nDamage = 2
+			}
 			for d := 0; d < nDamage; d++ {
 				name := packs[tp.Choose(len(packs))]
+				if pair[0] != "" {
+					name = pair[d]
+				}
 				if damaged[name] {
 					continue
 				}
@@ -219,6 +264,9 @@ func TestVerifC34(t *testing.T) {
 					r.Fail("repair-result", "damaged-pack-kept", "damage %s: pack %s still exists after repair packs", where, id[:8])
 				}
 			}
+			// what is available when repair snapshots starts (it may re-create a tree that was lost, when a
+			// repaired tree happens to equal it)
+			mid := model.View(w.key, w.store.Clone(), true)
 			// repair snapshots --forget
 			var serr error
 			w.free(func() { serr = w.cmdRepairSnapshots(w.newProc("repair-snapshots"), nil, true) })
@@ -249,7 +297,7 @@ func TestVerifC34(t *testing.T) {
 				nid, ok := succ[sid]
 				if !ok {
 					// the snapshot may only vanish if its root tree is gone
-					if after.Available("tree/" + before.Snapshots[sid].Tree) {
+					if mid.Available("tree/" + before.Snapshots[sid].Tree) {
 						r.Fail("files-kept", "snapshot-dropped", "damage %s: snapshot %s has no successor although its root tree is still available", where, sid[:8])
 					}
 					continue
